@@ -64,3 +64,17 @@ Definition uke_row (v : list T) : T := nsum (map nabs (diff (map (fun x => (nofZ
 Definition input_energy_series (dt : T) (motion v : list T) : list T := cumsum (map2 (fun a x => a * x * dt) motion v).
 Definition input_energy (dt : T) (motion v : list T) : T := nsum (map2 (fun a x => a * x * dt) motion v).
 End Generic.
+
+(** spectrum intensities of eqsig/im.py (calc_asi, calc_vsi): max(c * cumulative_trapezoid(abs(ps))) [/ g].
+    scipy's cumulative_trapezoid WITHOUT `initial=` returns the n-1 partial integrals with dx = 1.0, i.e. the tail of
+    [cumtrapz n1]; `max` of an empty array raises ValueError, so these are the code only for at least 2 periods
+    ([amax []] = n0 is a totalisation that the theorems guard with 2 <= length ps). *)
+Section Intensity.
+Context {T : Type} `{NumOps T}.
+(** np.array(x) of a sequence of numbers, read on lists *)
+Definition as_array {A : Type} (x : A) : A := x.
+(** calc_vsi: no division *)
+Definition spectrum_intensity_raw (c : T) (ps : list T) : T := amax (scale c (tl (cumtrapz n1 (vabs ps)))).
+(** calc_asi: divided by g *)
+Definition spectrum_intensity (c g : T) (ps : list T) : T := spectrum_intensity_raw c ps / g.
+End Intensity.
